@@ -159,6 +159,16 @@ Definition add_pi (r : lin) (q : Q) : lin :=
   let q' := Qred q in
   if Qnum q' =? 0 then r else mkLin (lcoef r) (lterms r ++ [(PI_E, num_of_q q')]).
 
+(* get_pi_shift rebuilds the remainder with add(mul(key, value), x): an entry whose key is itself
+   a sum with coefficient 1 (it only arises when handle_minus has negated an entry (sum, -1)) would
+   be merged term by term into the new dictionary.  That merge (Add::dict_add_term) is not
+   modelled: such arguments are outside the model ([RUnsupported]). *)
+Definition lin_flat (l : lin) : bool :=
+  forallb (fun p => match fst p, snd p with
+                    | EAdd _ _, NInt z => negb (z =? 1)
+                    | _, _ => true
+                    end) (lterms l).
+
 (* ------------------------------------------------------------------ trig_simplify *)
 
 (* ts_index = None: the C++ variable is left uninitialised on that path *)
@@ -273,7 +283,8 @@ Section Step.
   (* after the head tests: trig_simplify and the dispatch on its outputs *)
   Definition ctor_go (f : trigfn) (sg : Z) (arg : lin) : tres :=
     let ts := trig_simplify (period_of f) (odd_of f) (conj_odd_of f) arg in
-    if ts_conj ts then rec (cofn f) (sg * ts_sign ts) (ts_rarg ts)
+    if negb (lin_flat arg) then RUnsupported
+    else if ts_conj ts then rec (cofn f) (sg * ts_sign ts) (ts_rarg ts)
     else if lin_is_zero (ts_rarg ts) then
       match ts_index ts with
       | Some i => RTab (sg * ts_sign ts) f i
@@ -317,7 +328,7 @@ Definition ctor_top (f : trigfn) (e : expr) : tres :=
   end.
 Definition trig_simplify_top (f : trigfn) (e : expr) : option tsout :=
   let l := lin_of_expr e in
-  if lin_exact l then Some (trig_simplify (period_of f) (odd_of f) (conj_odd_of f) l) else None.
+  if lin_exact l && lin_flat l then Some (trig_simplify (period_of f) (odd_of f) (conj_odd_of f) l) else None.
 
 (* mul(minus_one, e) on the tree shapes that occur as inverse-function arguments, and the
    (sign, core) normalisation the driver applies to results *)
